@@ -206,7 +206,17 @@ func c06Run(r *ev.Run, c *mc.Ctx, wk *c06Worker, sc *c06Scenario, img []byte) c0
 	var h2 *sdb.Database
 	h2Locked := false
 	taint := "" // set when a same-process handle step dropped the lock (known finding): downstream checks are consequences
-	if strings.Contains(sc.others, "WX") {
+	if strings.Contains(sc.others, "WR") {
+		// another process write-locks the shared byte range without the pending byte (SQLite >= 3.41 rolling a hot
+		// journal back does): the call passes the pending byte and is refused on the shared range
+		wSteps = []step{
+			{"W", "LOCK SHARED RANGE", func() string { s, _ := wk.W.Do("rawlock " + path); return s }},
+			{"W", "UNLOCK", func() string { s, _ := wk.W.Do("rawunlock"); return s }},
+			{"W", "LOCK SHARED RANGE", func() string { s, _ := wk.W.Do("rawlock " + path); return s }},
+			{"W", "UNLOCK", func() string { s, _ := wk.W.Do("rawunlock"); return s }},
+		}
+		defer wk.W.Do("rawunlock")
+	} else if strings.Contains(sc.others, "WX") {
 		// a writer that takes the EXCLUSIVE lock at once: a read attempted meanwhile must fail and leave nothing locked
 		wk.W.MustOK("open " + path)
 		wSteps = []step{
@@ -515,13 +525,16 @@ func c06Run(r *ev.Run, c *mc.Ctx, wk *c06Worker, sc *c06Scenario, img []byte) c0
 			alts = append(alts, alt{"W:" + s.name, func() {
 				inInterval := h1.started && !h1.finished && h1.locked
 				st := s.do()
-				if s.name == "BEGIN EXCLUSIVE" && st == "busy" {
+				if (s.name == "BEGIN EXCLUSIVE" || s.name == "LOCK SHARED RANGE") && st == "busy" {
 					wBlocked = true
 					if h1.finished && !h2Locked && taint == "" && h3i != 1 && h3i != 2 {
-						violation("C06:writer-blocked-after-return:"+opKind(sc.op.name), "after the call returned a SQLite writer cannot take the EXCLUSIVE lock (SQLITE_BUSY)")
+						violation("C06:writer-blocked-after-return:"+opKind(sc.op.name), "after the call returned another process cannot write-lock the shared range (SQLITE_BUSY for a SQLite writer)")
 						wi = len(wSteps)
 					}
 					return
+				}
+				if s.name == "LOCK SHARED RANGE" && st == "ok" && inInterval && taint == "" {
+					violation("C06:write-lock-granted-during-read:"+opKind(sc.op.name), "another process got a write lock on the shared byte range while the call was between its lock and its unlock")
 				}
 				if s.name == "COMMIT" {
 					if st == "ok" && inInterval && taint == "" {
@@ -606,7 +619,7 @@ func c06Run(r *ev.Run, c *mc.Ctx, wk *c06Worker, sc *c06Scenario, img []byte) c0
 }
 
 func runC06(r *ev.Run) {
-	r.Rule = "operation under test H1 in {Select, SelectDone, SelectRowid, IndexedSelect, IndexedSelectEq, PKSelect, Columns, on rowid and WITHOUT ROWID tables with overflow rows} x exit paths {normal, stop at row k for every k, callback panics at row k, no such table/column/index, fault at page read k for every k} run on the real file pager under a tracing pager (scheduling points: before/after every lock, unlock, page read, reserved-lock probe, and every row callback); other participants in atomic steps: W = real SQLite writer in another process (BEGIN IMMEDIATE, INSERT, COMMIT with busy_timeout 0), H2 = second sqlittle handle in the same process (Open, RLock, RUnlock, Close / a whole Select), H3 = sqlittle handle in another process; every interleaving with preemption bound 2 (pairs: unbounded in thorough); invariants at every point from /proc/locks: inside the call the process holds READ on the whole shared range, every page read lies inside the locked interval, a COMMIT attempted inside is BUSY, after return nothing is held on the pending byte and shared range and the writer can commit; select-like calls made from inside a row callback on the same handle (alone and against the writer); the same handle calling twice (after a refused, an overlapped and a plain first call); plus database/sql result sets left open after k rows; plus every select-like call on a handle the caller does not keep a reference to, with a forced garbage collection in every row callback. non-trivial = executions with at least one preemption or a non-normal exit path"
+	r.Rule = "operation under test H1 in {Select, SelectDone, SelectRowid, IndexedSelect, IndexedSelectEq, PKSelect, Columns, on rowid and WITHOUT ROWID tables with overflow rows} x exit paths {normal, stop at row k for every k, callback panics at row k, no such table/column/index, fault at page read k for every k} run on the real file pager under a tracing pager (scheduling points: before/after every lock, unlock, page read, reserved-lock probe, and every row callback); other participants in atomic steps: W = real SQLite writer in another process (BEGIN IMMEDIATE, INSERT, COMMIT with busy_timeout 0; or BEGIN EXCLUSIVE; or a bare write lock on the shared byte range without the pending byte, taken and dropped twice), H2 = second sqlittle handle in the same process (Open, RLock, RUnlock, Close / a whole Select), H3 = sqlittle handle in another process; every interleaving with preemption bound 2 (pairs: unbounded in thorough); invariants at every point from /proc/locks: inside the call the process holds READ on the whole shared range, every page read lies inside the locked interval, a COMMIT attempted inside is BUSY, after return nothing is held on the pending byte and shared range and the writer can commit; select-like calls made from inside a row callback on the same handle (alone and against the writer); the same handle calling twice (after a refused, an overlapped and a plain first call); plus database/sql result sets left open after k rows; plus every select-like call on a handle the caller does not keep a reference to, with a forced garbage collection in every row callback. non-trivial = executions with at least one preemption or a non-normal exit path"
 	img := c06Image()
 	ops := c06Ops()
 	// exit-path scenarios, alone (sequential monitor)
@@ -698,6 +711,7 @@ func runC06(r *ev.Run) {
 		}
 		if op.name == "SelectDone" || op.name == "Columns" || op.name == "IndexedSelect(w)" {
 			scen = append(scen, c06Scenario{op: op, others: "WX"})
+			scen = append(scen, c06Scenario{op: op, others: "WR"}, c06Scenario{op: op, others: "WR", repeat: true})
 		}
 		if op.name == "SelectDone" || op.name == "Columns" || op.name == "IndexedSelectEq" || op.name == "PKSelect" {
 			// the same handle calls again after a call that was refused (writer in EXCLUSIVE), that overlapped a writer, or that simply returned
